@@ -1,4 +1,5 @@
 (* C09 - bracketed and block groups are exactly the properly matched pairs. *)
+From SqlModel.Inst Require PassTabRun.   (* the grouping tables of Group/Passes.v equal the ones regenerated from the source *)
 From SqlModel Require Import Base PyStr Node Inv Passes GroupFacts MatchSpec MatchFacts.
 
 (* the index-juggling loop over a snapshot (tidx_offset, opens) equals the textbook stack matcher *)
